@@ -26,11 +26,40 @@ P_FORMS = {"measures": ["dx", "dx", "ds", "dS", "dP"], "ids": "few", "max_integr
 P_OTHER = {"measures": ["dx", "ds"], "max_integrals": 2, "depth": 1, "maxdeg": 2}
 
 
+P_TP = {"cells": ["quadrilateral", "hexahedron"], "measures": ["dx"], "tp": True, "maxdeg": 2, "max_integrals": 2, "depth": 1, "manifold": 0.0,
+        "min_qdeg": 2, "max_qdeg": 3, "p_scheme": 0.0, "p_vertex": 0.0, "ncoef": (0, 1)}
+
+
+def sibling_spec(target):
+    """A small form on the target's cell with the target's quadrature metadata but a macro (iso) test function: it requests
+    the same (cell, degree, scheme) rules with another polyset."""
+    if target.get("kind", "form") != "form" or target["cell"] == "prism":
+        return None
+    ints = [{"m": "dx", "id": None, "md": dict(i["md"]), "e": ["v"]} for i in target["integrals"] if i["m"] == "dx" and i["md"].get("quadrature_rule", "default") != "vertex"]
+    if not ints:
+        return None
+    return {"kind": "form", "cell": target["cell"], "gdim": target["gdim"], "cdeg": target["cdeg"], "elements": [["el", "iso", 1, {}]], "args": [0], "coefs": [],
+            "consts": [], "integrals": ints[:2]}
+
+
 @st.composite
-def histories(draw):
+def histories(draw, target=None, tp=False):
     steps = []
     for _ in range(draw(st.integers(0, 3))):
-        k = draw(st.sampled_from(["objects", "objects", "compile", "options"]))
+        k = draw(st.sampled_from(["objects", "objects", "compile", "options", "sibling", "tp"]))
+        if k == "sibling":
+            sib = sibling_spec(target) if target is not None else None
+            if sib is None:
+                k = "objects"
+            else:
+                steps.append(["compile", sib, {}])
+                continue
+        if k == "tp":
+            if not tp:
+                k = "compile"
+            else:
+                steps.append(["compile", strategies.strip_meta(draw(strategies.form_specs(P_TP))), {"sum_factorization": True}])
+                continue
         if k == "objects":
             steps.append(["objects", draw(st.integers(1, 7))])
         elif k == "compile":
@@ -44,16 +73,21 @@ def histories(draw):
 
 @st.composite
 def cases(draw, nvariants):
-    if draw(st.integers(0, 4)) == 0:
+    r = draw(st.integers(0, 5))
+    options = {}
+    if r == 0:
         target = draw(strategies.expr_specs())
+    elif r == 1:
+        target = draw(strategies.form_specs(P_TP))
+        options = {"sum_factorization": True}
     else:
         target = draw(strategies.form_specs(P_FORMS))
     variants = []
     for _ in range(nvariants):
-        variants.append({"steps": draw(histories()), "hashseed": draw(st.sampled_from([0, 1, 2, 3, 7, 42, 1234, 99991, 4294967295])),
+        variants.append({"steps": draw(histories(strategies.strip_meta(target), tp=(r == 1))), "hashseed": draw(st.sampled_from([0, 1, 2, 3, 7, 42, 1234, 99991, 4294967295])),
                          "family": draw(st.sampled_from(["first", "first", "after"]))})
     lang = draw(st.sampled_from(["C", "C", "C", "numba"]))
-    return {"target": target, "variants": variants, "language": lang}
+    return {"target": target, "variants": variants, "language": lang, "options": options}
 
 
 def strip_comments(text, lang):
@@ -76,7 +110,9 @@ def evaluate(case, wd):
     h = spec_hash([tclean, case["variants"], case["language"]])
     classes = [f"lang:{case['language']}", f"kind:{target.get('kind', 'form')}"]
     classes += strategies.spec_classes(target) if target.get("kind", "form") == "form" else strategies.expr_classes(target)
-    opts = {"language": case["language"]} if case["language"] != "C" else {}
+    opts = dict(case.get("options") or {})
+    if case["language"] != "C":
+        opts["language"] = case["language"]
     base_job = {"mode": "codegen", "family": "first", "steps": [], "target": [tclean], "options": opts}
     base, err = procs.run_job("vf.child_codegen", base_job, wd, f"{h}_base", hashseed=0)
     if base is None:
@@ -91,7 +127,7 @@ def evaluate(case, wd):
         classes += [f"family:{v['family']}", f"steps:{len(v['steps'])}"] + [f"step:{s[0]}" for s in v["steps"]]
         if out is None:
             return Outcome("harness-error", case_id=h, classes=classes, what=err)
-        replay = {"target": tclean, "variant": v, "language": case["language"]}
+        replay = {"target": tclean, "variant": v, "language": case["language"], "options": case.get("options") or {}}
         if "error" in out:
             return Outcome("violation", case_id=h, classes=classes, key=f"{PROP}:error:{h}", bucket=f"{PROP}:history-changes-acceptance",
                            what=f"target compiles in a fresh process but raises after history {vdesc}: {out['error']}", replay=replay)
@@ -136,7 +172,7 @@ def run(tier: str) -> int:
 
 def replay(doc) -> int:
     rp = doc["replay"]
-    case = {"target": rp["target"], "variants": [rp["variant"]], "language": rp.get("language", "C")}
+    case = {"target": rp["target"], "variants": [rp["variant"]], "language": rp.get("language", "C"), "options": rp.get("options") or {}}
     with scratch("vf-replay-") as wd:
         o = evaluate(case, wd)
     print(o.status, o.what)
